@@ -44,7 +44,8 @@ type Contract struct {
 	Extern      bool
 	File        string
 	Line        int
-	Kind        string // "func" | "fieldfunc"
+	Kind        string // "func" | "fieldfunc" | "iface"
+	ParamNames  []string // optional parameter names given in the header: name(a, b)
 }
 
 type SpecFn struct {
@@ -92,11 +93,12 @@ type Specs struct {
 	Opaque    map[string]bool // fully qualified type names treated as opaque sorts
 	PureFns   []*regexp.Regexp
 	TypeInvs  map[string][]Clause // per qualified struct type: invariants assumed for values of it
+	GhostVars map[string]*GhostField
 	Files     []string
 }
 
 func NewSpecs() *Specs {
-	return &Specs{Contracts: map[string]*Contract{}, SpecFns: map[string]*SpecFn{}, Opaque: map[string]bool{}, TypeInvs: map[string][]Clause{}}
+	return &Specs{Contracts: map[string]*Contract{}, SpecFns: map[string]*SpecFn{}, Opaque: map[string]bool{}, TypeInvs: map[string][]Clause{}, GhostVars: map[string]*GhostField{}}
 }
 
 var propsRe = regexp.MustCompile(`\[([A-Za-z0-9_, ]+)\]`)
@@ -106,7 +108,7 @@ var clauseKeywords = map[string]bool{
 	"decreases": true, "replay:": true, "flag": true, "end": true,
 }
 var topKeywords = map[string]bool{
-	"func": true, "extern": true, "spec": true, "axiom": true, "lemma": true, "ghost": true,
+	"func": true, "extern": true, "iface": true, "spec": true, "axiom": true, "lemma": true, "ghost": true,
 	"lockinv": true, "fieldfunc": true, "opaque": true, "pure": true, "typeinv": true,
 }
 
@@ -213,6 +215,10 @@ func (sp *Specs) ParseFile(path, pkgPath string) error {
 			if part == "everything" {
 				return nil, true, nil
 			}
+			if part == "allocated" {
+				out = append(out, Clause{Expr: &EIdent{"allocated"}, Src: "allocated", File: path, Line: line})
+				continue
+			}
 			c, err := mkClause(part, line)
 			if err != nil {
 				return nil, false, err
@@ -223,7 +229,7 @@ func (sp *Specs) ParseFile(path, pkgPath string) error {
 	}
 	for _, l := range logs {
 		switch l.kw {
-		case "func", "extern", "fieldfunc":
+		case "func", "extern", "fieldfunc", "iface":
 			rest := l.rest
 			if l.kw == "extern" {
 				rest = strings.TrimSpace(strings.TrimPrefix(rest, "func"))
@@ -235,12 +241,24 @@ func (sp *Specs) ParseFile(path, pkgPath string) error {
 				}
 				rest = strings.TrimSpace(strings.Replace(rest, m[0], "", 1))
 			}
-			cur = &Contract{Name: rest, Full: qualify(rest, pkgPath), PkgPath: pkgPath, Props: props,
+			var pnames []string
+			if i := strings.LastIndex(rest, "("); i > 0 && strings.HasSuffix(rest, ")") && !strings.HasPrefix(rest[i:], "(*") && i > strings.LastIndex(rest, ").") {
+				for _, n := range strings.Split(rest[i+1:len(rest)-1], ",") {
+					if n = strings.TrimSpace(n); n != "" {
+						pnames = append(pnames, n)
+					}
+				}
+				rest = strings.TrimSpace(rest[:i])
+			}
+			cur = &Contract{Name: rest, Full: qualify(rest, pkgPath), PkgPath: pkgPath, Props: props, ParamNames: pnames,
 				Loops: map[int]*LoopSpec{}, Flags: map[string]string{}, File: path, Line: l.line,
 				Extern: l.kw == "extern" || pkgPath == "", Kind: "func"}
 			if l.kw == "fieldfunc" {
 				cur.Kind = "fieldfunc"
 				cur.Full = "fieldfunc:" + qualify(rest, pkgPath)
+			}
+			if l.kw == "iface" {
+				cur.Kind = "iface"
 			}
 			if old, dup := sp.Contracts[cur.Full]; dup {
 				return fmt.Errorf("%s:%d: duplicate contract for %s (also %s:%d)", path, l.line, cur.Full, old.File, old.Line)
@@ -366,8 +384,13 @@ func (sp *Specs) ParseFile(path, pkgPath string) error {
 			sp.Lemmas = append(sp.Lemmas, lm)
 			cur, curLoop = nil, nil
 		case "ghost":
-			// ghost field T.name type
+			// ghost field T.name type   |   ghost var name type
 			fs := strings.Fields(l.rest)
+			if len(fs) == 3 && fs[0] == "var" {
+				sp.GhostVars[fs[1]] = &GhostField{Field: fs[1], GoType: fs[2], PkgPath: pkgPath}
+				cur, curLoop = nil, nil
+				continue
+			}
 			if len(fs) != 3 || fs[0] != "field" {
 				return fmt.Errorf("%s:%d: ghost field T.name type", path, l.line)
 			}
